@@ -46,18 +46,25 @@ def rule_k1(ctx: Ctx) -> None:
     first = f.body[0]
     if isinstance(first, ast.Assign) and unparse(first) == f"{idx} = sorted({idx})":
         ctx.ok("C06-K1", f.where, "selected indices are sorted (position order)", first, f)
-    else:
+    elif not any(isinstance(n, ast.Call) and (call_name(n) == (idx, "sort") or (call_name(n) == ("sorted",) and n.args and idx in {x.id for x in ast.walk(n.args[0]) if isinstance(x, ast.Name)}
+                                                                                 and not any(isinstance(x, ast.Subscript) for x in ast.walk(n.args[0])))) for n in ast.walk(f.node)):
         ctx.violation("C06-K1", f, first, "the selected indices are not put in position order before the sub-pattern is induced")
+    else:
+        raise AnalysisError(f"{f.where}: where the selected indices are put in position order is not recognised")
     # induced pattern
     patt_name = None
     for k, v in env.items():
         if isinstance(v, ast.Call) and call_name(v) in (("Perm", "to_standard"), ("Perm", "standardize")):
             patt_name = k
             ge = v.args[0]
-            if isinstance(ge, ast.GeneratorExp) and not ge.generators[0].ifs and unparse(ge.generators[0].iter) == idx and unparse(ge.elt) == f"self.pattern[{unparse(ge.generators[0].target)}]":
+            if isinstance(ge, ast.Name) and ge.id in env:
+                ge = env[ge.id]  # a local holding the selected entries
+            if isinstance(ge, (ast.GeneratorExp, ast.ListComp)) and len(ge.generators) == 1 and not ge.generators[0].ifs and unparse(ge.generators[0].iter) == idx and unparse(ge.elt) == f"self.pattern[{unparse(ge.generators[0].target)}]":
                 ctx.ok("C06-K1", f.where, "induced pattern = standardisation of the selected entries in position order", v, f)
-            else:
+            elif isinstance(ge, (ast.GeneratorExp, ast.ListComp)) and len(ge.generators) == 1 and unparse(ge.generators[0].iter) == idx:
                 ctx.violation("C06-K1", f, v, f"induced pattern is built from `{unparse(ge)[:60]}`, not from the selected entries self.pattern[i] for i in indices")
+            else:
+                raise AnalysisError(f"{f.where}: how the induced pattern is built (`{unparse(ge)[:60]}`) is not recognised")
     if patt_name is None:
         raise AnalysisError(f"{f.where}: induced pattern not recognised")
     # the shading comprehension
@@ -130,11 +137,7 @@ def rule_k2(ctx: Ctx) -> None:
 
     body = f.body
     if len(body) == 1 and isinstance(body[0], ast.For):
-        generator_or_skeleton(ctx, f, specs, "occurrence in a mesh pattern = classical occurrence whose induced shading covers self.shading")
-        # generator_or_skeleton records under C11-D1; re-tag
-        for o in ctx.obligations:
-            if o["rule"] == "C11-D1" and o["where"] == f.where:
-                o["rule"] = "C06-K2"
+        generator_or_skeleton(ctx, f, specs, "occurrence in a mesh pattern = classical occurrence whose induced shading covers self.shading", rule="C06-K2")
         return
     check_skeleton(ctx, "C06-K2", f, specs[:3], "occurrence in a mesh pattern = classical occurrence whose induced shading covers self.shading (self.shading <= induced)",
                    required_calls=["sub_mesh_pattern", "occurrences_in"])
